@@ -60,6 +60,8 @@ func checkC15(r *Report) {
 	r.floor("C15.e/INTERPOLATE-COVER", "interpolatable fields reachable from maven.Dependency", nIC, 9)
 	allCriteriaRule(r, p, "C15.f/ALL-CRITERIA")
 	importKeyRule(r, p, "C15.g/IMPORT-KEY-VERSION")
+	nDF := importDepthFirstRule(r, p, "C15.h/IMPORT-DEPTH-FIRST")
+	r.floor("C15.h/IMPORT-DEPTH-FIRST", "refills of the work list of imports", nDF, 1)
 }
 
 // declaredWinsRule: when ProcessDependencies injects dependency management
